@@ -55,6 +55,9 @@ REQUIRED_CLAUSES = ["offset==iers", "offset.before-1972==0",
 
 def shards(tier, seed):
     ks = list(range(0, 61)) if tier == "thorough" else [0, 1, 10, 27, 37, 60]
+    # the override is documented as int or float: values between the whole
+    # seconds too
+    ks += [0.5, 12.5, 37.25]
     ys = list(range(1950, 2101))
     n = 16
     out = [{"name": "utc-%02d" % i, "part": "utc", "years": ys[i::n],
